@@ -4,6 +4,7 @@
 package semvergen
 
 import (
+	"deps.dev/util/semver"
 	"fmt"
 	"go/ast"
 	"go/token"
@@ -81,19 +82,14 @@ func Tables(repo string) (string, error) {
 		sysVal[names[i]] = vals[i]
 	}
 
+	// Tables held in package-level variables are read from the linked code at run time (hook
+	// semver.VerifGetTables), so that it does not matter how they are declared or built.
+	rt := semver.VerifGetTables(len(names))
+
 	// byteType table.
-	bt := fw.FindVar(p, "byteType")
-	cl, ok := bt.(*ast.CompositeLit)
-	if !ok {
-		return "", fmt.Errorf("byteType: not a composite literal")
-	}
 	var btv []int64
-	for _, e := range cl.Elts {
-		v, ok := fw.EvalInt(p, e)
-		if !ok {
-			return "", fmt.Errorf("byteType: non-constant element")
-		}
-		btv = append(btv, v)
+	for _, v := range rt.ByteType {
+		btv = append(btv, int64(v))
 	}
 	fmt.Fprintf(&b, "/-- `byteType` of token.go (%d entries). -/\ndef byteType : List Nat := %s\n\n", len(btv), natList(btv))
 	for _, n := range []string{"tXX", "tWS", "tVS", "tOP", "tBR"} {
@@ -128,48 +124,16 @@ func Tables(repo string) (string, error) {
 	b.WriteString("]\n\n")
 
 	// operators: slice of maps keyed by System index.
-	ops := fw.FindVar(p, "operators")
-	ocl, ok := ops.(*ast.CompositeLit)
-	if !ok {
-		return "", fmt.Errorf("operators: not a composite literal")
-	}
 	type ent struct {
 		k string
 		v int64
 	}
 	table := map[int64][]ent{}
-	maxIdx := int64(-1)
-	next := int64(0)
-	for _, e := range ocl.Elts {
-		idx := next
-		val := e
-		if kv, ok := e.(*ast.KeyValueExpr); ok {
-			i, ok := fw.EvalInt(p, kv.Key)
-			if !ok {
-				return "", fmt.Errorf("operators: non-constant index")
-			}
-			idx, val = i, kv.Value
+	maxIdx := int64(rt.OperatorsLen) - 1
+	for i, ops := range rt.Operators {
+		for _, o := range ops {
+			table[int64(i)] = append(table[int64(i)], ent{o.Text, int64(o.Tok)})
 		}
-		next = idx + 1
-		if idx > maxIdx {
-			maxIdx = idx
-		}
-		m, ok := val.(*ast.CompositeLit)
-		if !ok {
-			return "", fmt.Errorf("operators[%d]: not a literal", idx)
-		}
-		var es []ent
-		for _, me := range m.Elts {
-			kv := me.(*ast.KeyValueExpr)
-			k, ok1 := fw.EvalStr(p, kv.Key)
-			v, ok2 := fw.EvalInt(p, kv.Value)
-			if !ok1 || !ok2 {
-				return "", fmt.Errorf("operators[%d]: non-constant entry", idx)
-			}
-			es = append(es, ent{k, v})
-		}
-		sort.Slice(es, func(i, j int) bool { return es[i].k < es[j].k })
-		table[idx] = es
 	}
 	b.WriteString("/-- `operators` of token.go: entry i is the operator map of System i (sorted by key;\n    the LENGTH of this list is the length of the Go slice: indexing past it panics). -/\n")
 	b.WriteString("def operators : List (List (List UInt8 × Nat)) := [\n")
@@ -192,7 +156,13 @@ func Tables(repo string) (string, error) {
 	// validWildcard: per system, the list of runes accepted.
 	wc, err := switchRunes(p, "validWildcard", sysVal)
 	if err != nil {
-		return "", err
+		// not written as the expected switch: probe the method (runes below U+3000, ascending)
+		wc = map[int64][]int64{}
+		for i, rs := range rt.ValidWildcard {
+			for _, r := range rs {
+				wc[int64(i)] = append(wc[int64(i)], int64(r))
+			}
+		}
 	}
 	b.WriteString("/-- `System.validWildcard`: (system value, accepted runes). Systems not listed accept none. -/\n")
 	b.WriteString("def validWildcard : List (Nat × List Nat) := [")
@@ -212,7 +182,12 @@ func Tables(repo string) (string, error) {
 	// supportsAnd: systems returning true.
 	sa, err := switchTrue(p, "supportsAnd", sysVal)
 	if err != nil {
-		return "", err
+		sa = nil
+		for i, t := range rt.SupportsAnd {
+			if t {
+				sa = append(sa, int64(i))
+			}
+		}
 	}
 	fmt.Fprintf(&b, "/-- Systems for which `supportsAnd` returns true. -/\ndef supportsAnd : List Nat := %s\n\n", natList(sa))
 
@@ -236,20 +211,9 @@ func Tables(repo string) (string, error) {
 	b.WriteString("\n")
 
 	// mavenVersionQualifierOrder
-	mq := fw.FindVar(p, "mavenVersionQualifierOrder")
-	mcl, ok := mq.(*ast.CompositeLit)
-	if !ok {
-		return "", fmt.Errorf("mavenVersionQualifierOrder: not a literal")
-	}
 	var mes []ent
-	for _, me := range mcl.Elts {
-		kv := me.(*ast.KeyValueExpr)
-		k, ok1 := fw.EvalStr(p, kv.Key)
-		v, ok2 := fw.EvalInt(p, kv.Value)
-		if !ok1 || !ok2 {
-			return "", fmt.Errorf("mavenVersionQualifierOrder: non-constant entry")
-		}
-		mes = append(mes, ent{k, v})
+	for k, v := range rt.MavenQualifierOrder {
+		mes = append(mes, ent{k, int64(v)})
 	}
 	sort.Slice(mes, func(i, j int) bool { return mes[i].k < mes[j].k })
 	b.WriteString("/-- `mavenVersionQualifierOrder` (sorted by key); a missing key reads as 0 in Go. -/\n")
@@ -263,39 +227,16 @@ func Tables(repo string) (string, error) {
 	b.WriteString("]\n\n")
 
 	// pep440PreStrings (ordered), pep440PostStrings (ordered), lettersInPyPI
-	ps := fw.FindVar(p, "pep440PreStrings")
-	pcl, ok := ps.(*ast.CompositeLit)
-	if !ok {
-		return "", fmt.Errorf("pep440PreStrings: not a literal")
-	}
 	b.WriteString("/-- `pep440PreStrings` in source order: (text, canon). -/\ndef pep440PreStrings : List (List UInt8 × List UInt8) := [")
-	for j, e := range pcl.Elts {
-		c := e.(*ast.CompositeLit)
-		if len(c.Elts) != 2 {
-			return "", fmt.Errorf("pep440PreStrings: entry shape")
-		}
-		t, ok1 := fw.EvalStr(p, c.Elts[0])
-		cn, ok2 := fw.EvalStr(p, c.Elts[1])
-		if !ok1 || !ok2 {
-			return "", fmt.Errorf("pep440PreStrings: non-constant")
-		}
+	for j, e := range rt.Pep440PreStrings {
 		if j > 0 {
 			b.WriteString(", ")
 		}
-		fmt.Fprintf(&b, "(%s, %s)", fw.LeanBytes(t), fw.LeanBytes(cn))
+		fmt.Fprintf(&b, "(%s, %s)", fw.LeanBytes(e[0]), fw.LeanBytes(e[1]))
 	}
 	b.WriteString("]\n\n")
-	po := fw.FindVar(p, "pep440PostStrings")
-	pocl, ok := po.(*ast.CompositeLit)
-	if !ok {
-		return "", fmt.Errorf("pep440PostStrings: not a literal")
-	}
 	b.WriteString("/-- `pep440PostStrings` in source order. -/\ndef pep440PostStrings : List (List UInt8) := [")
-	for j, e := range pocl.Elts {
-		t, ok := fw.EvalStr(p, e)
-		if !ok {
-			return "", fmt.Errorf("pep440PostStrings: non-constant")
-		}
+	for j, t := range rt.Pep440PostStrings {
 		if j > 0 {
 			b.WriteString(", ")
 		}
@@ -313,17 +254,8 @@ func Tables(repo string) (string, error) {
 	fmt.Fprintf(&b, "def lettersInPyPI : List UInt8 := %s\n\n", fw.LeanBytes(lp))
 
 	// minPre
-	mp := fw.FindVar(p, "minPre")
-	mpcl, ok := mp.(*ast.CompositeLit)
-	if !ok {
-		return "", fmt.Errorf("minPre: not a literal")
-	}
 	b.WriteString("def minPre : List (List UInt8) := [")
-	for j, e := range mpcl.Elts {
-		t, ok := fw.EvalStr(p, e)
-		if !ok {
-			return "", fmt.Errorf("minPre: non-constant")
-		}
+	for j, t := range rt.MinPre {
 		if j > 0 {
 			b.WriteString(", ")
 		}
@@ -334,12 +266,34 @@ func Tables(repo string) (string, error) {
 	// Systems that tolerate leading zeros in numbers (versionParser.number) and >3 numbers (addNum).
 	lz, err := caseListInFunc(p, "versionParser", "number", sysVal)
 	if err != nil {
-		return "", err
+		// not written as the expected case list: ask the parser (systems that go through the
+		// generic number parser, i.e. not Maven and not PyPI)
+		lz = nil
+		for i := range names {
+			sys := semver.System(vals[i])
+			if sys == semver.Maven || sys == semver.PyPI {
+				continue
+			}
+			if _, err := sys.Parse("01.2.3"); err == nil {
+				lz = append(lz, vals[i])
+			}
+		}
+		sort.Slice(lz, func(i, j int) bool { return lz[i] < lz[j] })
 	}
 	fmt.Fprintf(&b, "/-- Systems listed in the `case` of `versionParser.number` that allows leading zeros. -/\ndef leadingZeroSystems : List Nat := %s\n", natList(lz))
 	mn, err := caseListInFunc(p, "versionParser", "addNum", sysVal)
 	if err != nil {
-		return "", err
+		mn = nil
+		for i := range names {
+			sys := semver.System(vals[i])
+			if sys == semver.Maven {
+				continue
+			}
+			if _, err := sys.Parse("1.2.3.4"); err == nil {
+				mn = append(mn, vals[i])
+			}
+		}
+		sort.Slice(mn, func(i, j int) bool { return mn[i] < mn[j] })
 	}
 	fmt.Fprintf(&b, "/-- Systems listed in the `case` of `versionParser.addNum` that allows more than 3 numbers. -/\ndef manyNumberSystems : List Nat := %s\n", natList(mn))
 
